@@ -254,6 +254,14 @@ func checkAuthenticator(c *Ctx, rule, fname string, fn *ssa.Function) {
 		return
 	}
 	c.R.OK(rule, fname, "verification takes the client's signature and the issued challenge", c.pos(verify), "")
+	// no argument of the verification (in particular the key) may be the nil constant on some path
+	for i, a := range verify.Call.Args {
+		if _, isSlice := a.Type().Underlying().(*types.Slice); !isSlice {
+			continue
+		}
+		c.R.Check(!mayBeNilConst(a, 0), rule, fname, fmt.Sprintf("verification argument %d is never the nil constant", i), c.pos(verify),
+			"argument "+ir.Desc(a)+" of the verification can be nil on some path (an empty key makes every client able to compute a valid signature)")
+	}
 	vd := regexpQuote(ir.Desc(verify))
 	for i, s := range succ {
 		g, _ := ir.GuardedBy(fn, s, clause("bypass or verification succeeded", bypass.Edges[0], T(`^`+vd+`(#0)?$`)))
@@ -278,6 +286,11 @@ func checkAuthenticator(c *Ctx, rule, fname string, fn *ssa.Function) {
 			}
 		}
 		c.R.Check(used, rule, ir.ShortName(vf), "verifier uses its challenge parameter", c.P.FuncPos(vf), "the challenge parameter of the verifier is never used")
+		// the challenge must flow into an equality comparison (directly or through a MAC computed from it)
+		if idx >= 0 && idx < len(vf.Params) {
+			c.R.Check(flowsToComparator(vf, vf.Params[idx], 0), rule, ir.ShortName(vf), "challenge flows into bytes.Equal / hmac.Equal / ConstantTimeCompare", c.P.FuncPos(vf),
+				"in "+ir.ShortName(vf)+" the challenge parameter never reaches an equality comparison: any validly signed message would be accepted")
+		}
 		// and its `true` result depends on a comparison involving it: every `return true`-capable path passes a call taking the parameter
 		if idx >= 0 && idx < len(vf.Params) {
 			pn := "%" + vf.Params[idx].Name()
@@ -297,3 +310,66 @@ func checkAuthenticator(c *Ctx, rule, fname string, fn *ssa.Function) {
 }
 
 func regexpQuote(s string) string { return q(s) }
+
+// flowsToComparator: the parameter (or a value computed from it by calls,
+// conversions, slicing) is an argument of a byte-equality function.
+func flowsToComparator(fn *ssa.Function, p ssa.Value, depth int) bool {
+	if depth > 3 || fn.Blocks == nil {
+		return false
+	}
+	taint := map[ssa.Value]bool{p: true}
+	changed := true
+	for changed {
+		changed = false
+		for _, in := range ir.Instrs(fn) {
+			v, ok := in.(ssa.Value)
+			if !ok || taint[v] {
+				continue
+			}
+			var ops []*ssa.Value
+			hit := false
+			for _, op := range in.Operands(ops) {
+				if *op != nil && taint[*op] {
+					hit = true
+				}
+			}
+			if !hit {
+				continue
+			}
+			switch x := in.(type) {
+			case *ssa.Call:
+				if _, isB := x.Call.Value.(*ssa.Builtin); isB {
+					continue // len, cap ... lose the content
+				}
+				taint[v] = true
+				changed = true
+			case *ssa.Convert, *ssa.ChangeType, *ssa.Slice, *ssa.MakeInterface, *ssa.Phi, *ssa.Extract:
+				taint[v] = true
+				changed = true
+			}
+		}
+	}
+	for _, in := range ir.Instrs(fn) {
+		call, ok := in.(*ssa.Call)
+		if !ok {
+			continue
+		}
+		f := call.Call.StaticCallee()
+		if f == nil {
+			continue
+		}
+		for i, a := range call.Call.Args {
+			if !taint[a] {
+				continue
+			}
+			switch f.String() {
+			case "bytes.Equal", "crypto/hmac.Equal", "crypto/subtle.ConstantTimeCompare":
+				return true
+			}
+			if f.Blocks != nil && i < len(f.Params) && flowsToComparator(f, f.Params[i], depth+1) {
+				return true
+			}
+		}
+	}
+	return false
+}
